@@ -265,7 +265,9 @@ def json_to_node(j):
 # ------------------------------------------------------------ random text
 FRAGS = ['(', ')', '/', ':', ':ARG0', ':r-of', 'a', 'b', 'x1', '"s t"', '"a\\"b"', '"x\\\\"', '"\\\\" "y"', '~1', '~e.2,3', '~E.1', ' ', '  ', '\n', '\t',
          '#', '# ::id 1', '# ::a 1  ::b two words  ::c', '"', '\\', '~', ',', '^', '.', '-', '0', '1.5', SC['nbsp'], SC['ls'], SC['vt'], SC['ff'], SC['cr'],
-         SC['isp'], SC['nel'], SC['fs'], 'é', SC['cjk'], '::', ' ::k v', ':op1', '(a / b)', '(a :r (b))', 'instance(a, b)', ' ^ ']
+         SC['isp'], SC['nel'], SC['fs'], 'é', SC['cjk'], '::', ' ::k v', ':op1', '(a / b)', '(a :r (b))', 'instance(a, b)', ' ^ ',
+         # blanks and other seams inside and right after an alignment list
+         'b~1, 2', '~e.1 ,2', 'x~e.3, 4 ', ':r~1,2, 3', '~1,\t2', '~e. 1', '~ e.1', 'c~E.1,2,', '~1,,2', '~1.2', ':ARG0~e.1 , 2']
 
 
 def random_text(rng, maxfrags=12):
